@@ -304,7 +304,10 @@ func (e *Engine) invoke(fr *Frame, st *State, ins ssa.Instruction, recv *Term, i
 		}
 		return e.callFunc(fr, st, ins, fn, nil, append([]Val{self}, args...))
 	}
-	// case split over implementations listed in the engine's dispatch table
+	// case split over the implementations the contract of the function under verification lists
+	if impls := e.implsFor(fr, it); len(impls) > 0 {
+		return e.dispatch(fr, st, ins, recv, it, m, args, impls)
+	}
 	key := ifaceKey(it, m.Name())
 	if c, ok := e.ifContract[key]; ok {
 		if !fr.ghost {
@@ -362,6 +365,7 @@ func (e *Engine) evalWrapper(fr *Frame, st, old *State, fn *ssa.Function, args [
 	e.bindParams(child, args)
 	tmp := st.clone()
 	tmp.cond = e.tb.True() // ghost code is pure: evaluate it independently of the path condition
+	tmp.dead = false
 	e.ghostDepth++
 	res, _ := func() ([]Val, *State) {
 		defer func() { e.ghostDepth-- }()
@@ -933,4 +937,157 @@ func (e *Engine) hasConcreteOwnIface(fn *ssa.Function, args []Val) bool {
 		}
 	}
 	return false
+}
+
+
+func (e *Engine) implsFor(fr *Frame, it types.Type) []types.Type {
+	name := types.TypeString(it, func(p *types.Package) string { return p.Name() })
+	for f := fr; f != nil; f = f.caller {
+		if f.contract == nil || f.contract.Impls == nil {
+			continue
+		}
+		names, ok := f.contract.Impls[name]
+		if !ok {
+			continue
+		}
+		var out []types.Type
+		for _, n := range names {
+			t := e.lookupTypeByName(n)
+			if t == nil && !strings.Contains(n, ".") {
+				// a type of the contract's own package
+				ptr := strings.HasPrefix(n, "*")
+				if sp := e.ssaPkgs[f.contract.PkgPath]; sp != nil {
+					if o := sp.Pkg.Scope().Lookup(strings.TrimPrefix(n, "*")); o != nil {
+						t = o.Type()
+						if ptr {
+							t = types.NewPointer(t)
+						}
+					}
+				}
+			}
+			if t == nil {
+				unsupported("impls: unknown type %s", n)
+			}
+			out = append(out, t)
+		}
+		return out
+	}
+	return nil
+}
+
+// dispatch executes an interface call as a case split over the listed dynamic types; that the
+// receiver's dynamic type is one of them is an obligation.
+func (e *Engine) dispatch(fr *Frame, st *State, ins ssa.Instruction, recv *Term, it types.Type, m *types.Func, args []Val, impls []types.Type) Val {
+	tb := e.tb
+	tag := tb.Acc(recv, 0)
+	var conds []*Term
+	for _, t := range impls {
+		conds = append(conds, tb.Eq(tag, tb.Int(int64(e.typeTag(t)))))
+	}
+	key := ifaceKey(it, m.Name())
+	abstract, hasAbstract := e.ifContract[key]
+	if !fr.ghost && !hasAbstract {
+		e.safety(fr, st, "dispatch", ins, tb.Or(conds...))
+	}
+	var states []*State
+	var results [][]Val
+	sig := m.Type().(*types.Signature)
+	e.dispatchDepth++
+	defer func() { e.dispatchDepth-- }()
+	if e.dispatchDepth > 4 {
+		// deeper nesting than any chain of the listed implementations can have: must be unreachable
+		e.safety(fr, st, "dispatch-depth", ins, tb.False())
+		st.cond = tb.False()
+		st.dead = true
+		return e.freshOf(st, "dead", sig.Results())
+	}
+	for i, t := range impls {
+		g := st.clone()
+		g.cond = tb.And(st.cond, conds[i])
+		if g.cond.IsFalse() {
+			continue
+		}
+		ms := e.prog.MethodSets.MethodSet(t)
+		sel := ms.Lookup(m.Pkg(), m.Name())
+		if sel == nil {
+			unsupported("dispatch: %s has no method %s", t, m.Name())
+		}
+		fn := e.prog.MethodValue(sel)
+		var self Val
+		if pt, ok := t.Underlying().(*types.Pointer); ok {
+			self = &PtrVal{Kind: KObj, Ref: tb.Acc(recv, 1), Typ: pt.Elem()}
+		} else {
+			self = e.wrapLoaded(fr, g, e.unbox(tb.Acc(recv, 1), e.sortOf(t)), t)
+		}
+		r := e.callFunc(fr, g, ins, fn, nil, append([]Val{self}, args...))
+		if g.dead || g.cond.IsFalse() {
+			continue
+		}
+		var rv []Val
+		switch x := r.(type) {
+		case nil:
+		case TupleVal:
+			rv = []Val(x)
+		default:
+			rv = []Val{x}
+		}
+		states = append(states, g)
+		results = append(results, rv)
+	}
+	if hasAbstract {
+		// none of the listed types: the abstract contract of the interface method
+		g := st.clone()
+		var negs []*Term
+		for _, c := range conds {
+			negs = append(negs, tb.Not(c))
+		}
+		g.cond = tb.And(append([]*Term{st.cond}, negs...)...)
+		if !g.cond.IsFalse() {
+			if !fr.ghost {
+				e.safety(fr, g, "safe-nil", ins, tb.Not(tb.Eq(tag, tb.Int(0))))
+			}
+			r := e.applyIfaceContract(fr, g, ins, abstract, recv, args, sig)
+			if !g.dead && !g.cond.IsFalse() {
+				var rv []Val
+				switch x := r.(type) {
+				case nil:
+				case TupleVal:
+					rv = []Val(x)
+				default:
+					rv = []Val{x}
+				}
+				states = append(states, g)
+				results = append(results, rv)
+			}
+		}
+	}
+	if len(states) == 0 {
+		st.cond = tb.False()
+		st.dead = true
+		return e.freshOf(st, "dead", sig.Results())
+	}
+	merged := e.mergeStates(states)
+	n := len(results[0])
+	res := make([]Val, n)
+	for i := 0; i < n; i++ {
+		var acc Val
+		for j := range states {
+			v := results[j][i]
+			if acc == nil {
+				acc = v
+				continue
+			}
+			at, ok1 := e.valTerm(acc)
+			vt, ok2 := e.valTerm(v)
+			if !ok1 || !ok2 {
+				unsupported("dispatch: cannot merge results")
+			}
+			acc = e.rewrap(tb.Ite(states[j].cond, vt, at), v, acc)
+		}
+		res[i] = acc
+	}
+	cond := st.cond
+	*st = *merged
+	_ = cond
+	return packResults(res)
 }
